@@ -48,6 +48,13 @@ def check(ck):
             # `not self._queue.unfinished_tasks` is split by the CFG into a branch on the operand with flipped polarity
             by_count = by_count or any(g.nodes[i].kind == "branch" and dump(g.nodes[i].test) == "self._queue.unfinished_tasks" and not g.nodes[i].polarity
                                        for i in d[rn.id])
+            for i in d[rn.id]:
+                b = g.nodes[i]
+                if b.kind == "branch" and isinstance(b.test, ast.Compare) and len(b.test.ops) == 1 and dump(b.test.left) == "self._queue.unfinished_tasks" \
+                        and isinstance(b.test.comparators[0], ast.Constant) and b.test.comparators[0].value == 0:
+                    opn = type(b.test.ops[0]).__name__
+                    if (opn in ("Eq", "LtE") and b.polarity) or (opn in ("NotEq", "Gt") and not b.polarity):
+                        by_count = True
             empties = [dump(g.nodes[i].test) for i in d[rn.id] if g.nodes[i].kind == "branch" and ("empty()" in dump(g.nodes[i].test) or "qsize()" in dump(g.nodes[i].test))]
             ck.require(by_join or by_count, "C11.1", "%s: `return True` #%d" % (q.fn(fj), n1), "dominated by Queue.join() or an unfinished-task test",
                        "join() can return True without the tasks being finished: the exit is guarded only by %s (an empty queue does not mean that the "
